@@ -5,10 +5,15 @@
   `from_script` / `script_pubkey` on payloads); specification vocabulary: EV.Model.ScriptSpec
   (`expected`, `serialize`, guards `BOp.wf` / `BOp.smallIntPush`, template patterns).
   Scope: the *text* form of addresses (base58 / bech32 / blech32) belongs to C06/C17; the clause "its text
-  form parses back to the same address" is checked on the real code by the S stream of this property.
+  form parses back to the same address" is the composition of this property's payload-level theorems with
+  C06's text-level theorems over the payload conversion of EV.Proofs.BridgeScriptAddress (section
+  "scripts ↔ addresses ↔ text" at the end), and is also checked on the real code by the S stream of this
+  property.
 -/
 import EV.Proofs.ScriptBuilder
 import EV.Proofs.ScriptAddress
+import EV.Proofs.BridgeScriptAddress
+import EV.Props.C06
 namespace EV.Props.C16
 open EV EV.Script EV.Gen
 open EV.Proofs.ScriptIter EV.Proofs.ScriptNum EV.Proofs.ScriptBuilder EV.Proofs.ScriptTemplates EV.Proofs.ScriptAddress
@@ -282,6 +287,65 @@ theorem constructors_agree (h : Bytes) (v : Nat) (prog : Bytes) (hv : v ≤ 16) 
     newWitnessProgram v prog = scriptPubkey (.witnessProgram v prog) :=
   ⟨rfl, rfl, newWitnessProgram_eq v prog hv⟩
 
+/-! ## scripts ↔ addresses ↔ text (C16 × C06) -/
+
+section text
+open EV.Proofs.BridgeScriptAddress
+
+/-- **Script → address → text → address.** Composes the script/payload model of this property
+    (`EV.Model.Script`: `from_script`, `script_pubkey` on `EV.Script.Payload`) with the address/text model of
+    property C06 (`EV.Model.Address`: `Display`, `from_str`, `parse_with_params` on `EV.Addr.Address`, hash and
+    key parser as parameters `P`), through `toAddrPayload` (the same payload with its bytes as `List Nat`).
+    For every script `s` from which an address is derived (`from_script s = Some(p)`), every one of the three
+    networks and every admissible blinder (none, or 33 bytes the key parser accepts — `Addr.BlinderOk`): the
+    address's output script is `s`, and the displayed text of the address parses back to the same address, with
+    `from_str` and with `parse_with_params` of that network.  Uses `script_addr_script`,
+    `from_script_iff_template` and C06 `addr_roundtrip`. -/
+theorem script_address_text_roundtrip (P : Addr.Prims) (s : Bytes) (p : Payload) (h : fromScript s = some p)
+    (params : Gen.AddrParamsB) (hp : params ∈ Gen.allParamsB) (blinder : Option (List Nat))
+    (hb : Addr.BlinderOk P blinder) :
+    let a : Addr.Address := ⟨params, toAddrPayload p, blinder⟩
+    scriptPubkey p = some s ∧ Addr.fromStr P (Addr.display P a) = .ok a ∧
+      Addr.parseWithParams P (Addr.display P a) params = .ok a := by
+  intro a
+  have hw : Addr.WF P a := wf_toAddress P p ((from_script_iff_template s p).mp h).1 params hp blinder hb
+  exact ⟨script_addr_script s p h, C06.addr_roundtrip P a hw⟩
+
+/-- the conversion loses nothing: distinct payloads (hence, by `from_script_iff_template`, distinct address
+    scripts) give distinct C06 payloads, and converting back returns the payload -/
+theorem address_payload_conversion (p q : Payload) :
+    ofAddrPayload (toAddrPayload p) = p ∧ (toAddrPayload p = toAddrPayload q → p = q) :=
+  ⟨of_to_payload p, toAddrPayload_injective p q⟩
+
+/-- **Text → address → script → address.** The converse composition of the same two models: whatever
+    `from_str` accepts (C06 `parsed_shape`: a standard address, all entries byte values) converts to a C16
+    payload `p` that is `standard`, converts back to the parsed payload exactly, and whose `script_pubkey` is a
+    script from which `from_script` derives `p` again (`addr_script_addr`); displaying the address gives the
+    text back (lower-cased for the segwit forms, C06 `parse_display_canonical`). -/
+theorem text_address_script_roundtrip (P : Addr.Prims) (t : Bech32.Text) (a : Addr.Address)
+    (h : Addr.fromStr P t = .ok a) :
+    let p := ofAddrPayload a.payload
+    p.standard ∧ toAddrPayload p = a.payload ∧
+      (∃ s, scriptPubkey p = some s ∧ fromScript s = some p) ∧
+      Addr.display P ⟨a.params, toAddrPayload p, a.blinder⟩ = (if a.payload.isSegwit then Bech32.lower t else t) := by
+  intro p
+  obtain ⟨hs, he⟩ := standard_of_payloadStd a.payload (C06.parsed_shape P t a h).payload
+  refine ⟨hs, he, addr_script_addr p hs, ?_⟩
+  rw [he]
+  exact C06.parse_display_canonical P t a h
+
+/-- the same for `parse_with_params` of one of the three networks -/
+theorem text_address_script_roundtrip_with_params (P : Addr.Prims) (t : Bech32.Text) (params : Gen.AddrParamsB)
+    (hp : params ∈ Gen.allParamsB) (a : Addr.Address) (h : Addr.parseWithParams P t params = .ok a) :
+    let p := ofAddrPayload a.payload
+    a.params = params ∧ p.standard ∧ toAddrPayload p = a.payload ∧
+      ∃ s, scriptPubkey p = some s ∧ fromScript s = some p := by
+  intro p
+  obtain ⟨hs, he⟩ := standard_of_payloadStd a.payload (C06.parsed_shape_with_params P t params hp a h).payload
+  exact ⟨(C06.parse_with_params_display_canonical P t params hp a h).1, hs, he, addr_script_addr p hs⟩
+
+end text
+
 /-! ## non-vacuity -/
 
 example : build [.opcode opDup, .opcode opHash160, .slice (List.replicate 20 7), .opcode opEqual, .verify, .opcode opChecksig]
@@ -295,5 +359,12 @@ example : buildScriptInt (-255) = [0xff, 0x80] ∧ readScriptInt [0xff, 0x80] = 
 example : fromScript (witnessScript opPushnum16 [1, 2]) = some (.witnessProgram 16 [1, 2]) := by decide
 example : isWitnessProgram (witnessScript 0 [1, 2, 3]) = true ∧ fromScript (witnessScript 0 [1, 2, 3]) = none := by decide
 example : fromScript (witnessScript opPushnum1 [1]) = none := by decide
+/-- the hypotheses of `script_address_text_roundtrip` are satisfiable, blinded and unblinded -/
+example : fromScript (p2shScript (List.replicate 20 7)) = some (.scriptHash (List.replicate 20 7)) ∧
+    Gen.paramsLiquidB ∈ Gen.allParamsB ∧
+    Addr.BlinderOk { sha256d := fun _ => [], validPk := fun _ => true } (some (List.replicate 33 2)) ∧
+    Addr.BlinderOk { sha256d := fun _ => [], validPk := fun _ => true } none ∧
+    EV.Proofs.BridgeScriptAddress.toAddrPayload (.scriptHash (List.replicate 20 7)) = .sh (List.replicate 20 7) :=
+  ⟨by decide, by decide, ⟨by decide, rfl, by intro b hb; rw [List.mem_replicate] at hb; omega⟩, trivial, by decide⟩
 
 end EV.Props.C16
